@@ -427,6 +427,29 @@ func ruleMapOrder(c *Ctx, r *R) {
 			r.undecided(name+"|missing", token.NoPos, "anchor not found")
 			continue
 		}
+		// the expected-index field, by role: the field the heap's minimum idx is compared with (s.i, or queue.next once the
+		// reorder state lives in a helper type)
+		expF := "i"
+		for _, dd := range deepInstrs(fn, 2) {
+			call, ok := dd.in.(*ssa.Call)
+			if !ok {
+				continue
+			}
+			if cal := staticCallee(&call.Call); cal == nil || fname(cal) != "Pop" {
+				continue
+			}
+			for _, fs := range deepFactStrings(dd) {
+				parts := strings.SplitN(fs, " ", 3)
+				if len(parts) != 3 || parts[1] != "==" {
+					continue
+				}
+				for _, pr := range [][2]string{{parts[0], parts[2]}, {parts[2], parts[0]}} {
+					if strings.Contains(pr[0], "Peek") && strings.HasSuffix(pr[0], ".idx") && strings.Contains(pr[1], ".") && !strings.Contains(pr[1], "(") && !strings.Contains(pr[1], ":") {
+						expF = pr[1][strings.LastIndex(pr[1], ".")+1:]
+					}
+				}
+			}
+		}
 		// Pop only under Peek().idx == s.i
 		nPop := 0
 		for _, dd := range deepInstrs(fn, 2) {
@@ -446,10 +469,10 @@ func ruleMapOrder(c *Ctx, r *R) {
 					continue
 				}
 				xs, op, ys := parts[0], parts[1], parts[2]
-				if op == "==" && strings.Contains(xs, "Peek") && strings.HasSuffix(xs, ".idx") && strings.HasSuffix(ys, ".i") {
+				if op == "==" && strings.Contains(xs, "Peek") && strings.HasSuffix(xs, ".idx") && strings.HasSuffix(ys, "."+expF) {
 					guarded = true
 				}
-				if op == "==" && strings.Contains(ys, "Peek") && strings.HasSuffix(ys, ".idx") && strings.HasSuffix(xs, ".i") {
+				if op == "==" && strings.Contains(ys, "Peek") && strings.HasSuffix(ys, ".idx") && strings.HasSuffix(xs, "."+expF) {
 					guarded = true
 				}
 				if strings.Contains(xs, "Len") && ((op == ">" && strings.HasPrefix(ys, "0:")) || (op == "!=" && strings.HasPrefix(ys, "0:")) || (op == ">=" && strings.HasPrefix(ys, "1:"))) {
@@ -472,7 +495,7 @@ func ruleMapOrder(c *Ctx, r *R) {
 			return false
 		}
 		ny := 0
-		for _, e := range countExits(fn, func(in ssa.Instruction) bool { return isFieldIncDec(in, "i", +1) }, nil) {
+		for _, e := range countExits(fn, func(in ssa.Instruction) bool { return isFieldIncDec(in, expF, +1) }, nil) {
 			if yields(e.Ret) {
 				ny++
 				r.ok(e.States == ss(1), name+"|i-once-per-yield#"+itoa(ny), retPos(e.Ret), "the expected index must advance exactly once per yielded item (reachable counts "+countDesc(e.States)+")")
